@@ -114,7 +114,7 @@ def eval_case(case, seed):
     c = make_case(case, seed)
     qc, ep = c["qc"], c["ep"]
     cap = scene.capture(c["items"])
-    keys = scene.keylog_text(c["flows"], c["rng"])
+    keys = scene.keylog_text(c["flows"], c["rng"], decoys=c["rng"].random() < 0.35)
     mon = monitors.QuicMonitor()
     res, files, argv = e2e.run_capture(cap, keys, c["extra"], child_setup=mon.install)
     out = {"cls": c["cls"], "nontrivial": len(qc.expect) > 0, "tags": [f"suite:{c['cls'][0]}"] + [f"feat:{f}" for f in c["feats"]] + [f"cid:{c['cls'][2]}/{c['cls'][3]}"],
